@@ -197,11 +197,15 @@ example : getArray ["time", "endtime", "id"] exLayout { timeRange := some (11, 2
 
 /-! ## 5. the result does not depend on the on-disk chunking -/
 
-/-- Two law-abiding layouts of the same rows over the same span give the same `get_array` result — rows,
+/-- Full statement (all ranges): two law-abiding layouts of the same rows over the same span give the same `get_array`
+result.  FALSE for empty / reversed ranges on the code as it is (`chunking_independent_counterexample`, open finding
+`C10-empty-range-error-depends-on-chunking`), hence `_partial` with the hypothesis `hproper` = "the time arguments denote
+no range or a range with `t0 < t1`".  Proved:
+two law-abiding layouts of the same rows over the same span give the same `get_array` result — rows,
 columns and error alike — for every combination of time arguments (`time_range`, `seconds_range`,
 `time_within`) that denotes a proper range or no range, both modes, every predicate and column set.
-(For empty / reversed ranges the statement is false: see `degenerate_range_depends_on_chunking`.) -/
-theorem chunking_independent (fields : List String) (s1 s2 : List Chunk) (a : TimeArgs) (sel : Sel) (S E : Int)
+-/
+theorem chunking_independent_partial (fields : List String) (s1 s2 : List Chunk) (a : TimeArgs) (sel : Sel) (S E : Int)
     (h1 : LawAbiding s1) (h2 : LawAbiding s2) (hrows : allRows s1 = allRows s2)
     (hspan1 : span s1 = some (S, E)) (hspan2 : span s2 = some (S, E)) (hm : RealMode sel.mode)
     (hproper : ∀ r, toAbsolute s1 a = .ok (some r) → r.1 < r.2) :
@@ -234,7 +238,7 @@ example : RealMode Mode.touching ∧ (∀ r, toAbsolute exLayout { timeRange := 
 (16 is a chunk boundary, every chunk pruned) raises `ValueError`, the one-chunk layout of the same rows
 returns an empty result.  Reproduced on the real code (known finding
 `C10-empty-range-error-depends-on-chunking`). -/
-theorem degenerate_range_depends_on_chunking :
+theorem chunking_independent_counterexample :
     LawAbiding exLayout ∧ LawAbiding exGiant ∧ allRows exLayout = allRows exGiant ∧
     span exLayout = span exGiant ∧
     getArray ["time", "endtime", "id"] exLayout { timeRange := some (16, 16) } {} = .error .valueError ∧
@@ -284,17 +288,17 @@ example : toAbsolute exLayout { secondsRange := some (⟨11, 1000000000⟩, ⟨1
 present, nothing is saved: the plan is never `computeSave`; stored data is always just loaded.  The authoritative
 statement over the whole `get_components` model (any graph, multi-output plugins) is `Strax.C11.partial_never_saves`;
 this one only says that the slice the C10 harness observes end to end agrees with it. -/
-theorem partial_request_never_saves (stored : Bool) (sw : SaveWhen) (isTarget inSave hasRange hasSel hasCols : Bool)
+theorem savePlan_never_saves_on_partial_request (stored : Bool) (sw : SaveWhen) (isTarget inSave hasRange hasSel hasCols : Bool)
     (h : savePlan stored sw isTarget inSave hasRange hasSel hasCols = .ok .computeSave) :
     hasRange = false ∧ hasSel = false ∧ hasCols = false ∧ stored = false := by
   cases stored <;> cases sw <;> cases isTarget <;> cases inSave <;> cases hasRange <;> cases hasSel <;>
     cases hasCols <;> simp [savePlan, targetShouldBeSaved, SaveWhen.toNat] at h ⊢
 
-theorem stored_is_loaded (sw : SaveWhen) (isTarget inSave hasRange hasSel hasCols : Bool) :
+theorem savePlan_stored_is_loaded (sw : SaveWhen) (isTarget inSave hasRange hasSel hasCols : Bool) :
     savePlan true sw isTarget inSave hasRange hasSel hasCols = .ok .load := rfl
 
 /-- a time range on data that is not stored and would be saved by default is refused -/
-theorem range_on_missing_data_refused (sw : SaveWhen) (isTarget inSave hasSel hasCols : Bool)
+theorem savePlan_range_on_missing_data_refused (sw : SaveWhen) (isTarget inSave hasSel hasCols : Bool)
     (h : sw = .target ∨ sw = .always) :
     savePlan false sw isTarget inSave true hasSel hasCols = .error .dataNotAvailable := by
   rcases h with rfl | rfl <;> rfl
